@@ -80,7 +80,7 @@ fn start_conn(cx: &mut Ctx, token: Token, mode: u32, peer_stays: bool) -> Conn {
 pub const C13_FAULTS: &[&str] = &["connection_future_dropped", "token_dropped_unused", "pending_request_cancelled", "handler_panic_unwind", "woken_request_cancelled"];
 pub const C13_PROBES: &[&str] = &[
     "two_pending_two_releases_between_polls", "fresh_request_barged", "limit_reached", "request_ready_first_poll",
-    "request_woken_then_ready", "clone_used", "run_to_completion", "shutdown_future_polled", "shutdown_ready_after_last_token",
+    "request_woken_then_ready", "clone_used", "clone_from_used", "run_to_completion", "shutdown_future_polled", "shutdown_ready_after_last_token",
     "clone_shutdown_independent", "connection_task_interleaved", "connection_task_finished", "huge_buffer_size_config", "request_repolled_with_new_waker", "up_to_40_requests_queued", "history_of_2000plus_operations",
 ];
 
@@ -281,9 +281,19 @@ pub fn c13(cx: &mut Ctx) -> VResult {
             5 => {
                 let live_r: Vec<usize> = runners.iter().enumerate().filter(|(_, r)| r.is_some()).map(|(i, _)| i).collect();
                 let ri = live_r[cx.ch.pick(live_r.len() as u32) as usize];
-                let c = Runner::clone(runners[ri].as_ref().expect("runner"));
+                let via_clone_from = cx.ch.chance(1, 3);
+                let c = if via_clone_from {
+                    // the equivalent route: an unrelated runner (own limit) overwritten with Clone::clone_from
+                    let extra = 1 + cx.ch.pick(3) as usize;
+                    let mut other = config(64, limit + extra).async_runner();
+                    other.clone_from(runners[ri].as_ref().expect("runner"));
+                    cx.probe("clone_from_used");
+                    other
+                } else {
+                    Runner::clone(runners[ri].as_ref().expect("runner"))
+                };
                 runners.push(Some(Arc::new(c)));
-                history.push(format!("clone r{ri}"));
+                history.push(format!("{} r{ri}", if via_clone_from { "clone_from" } else { "clone" }));
                 cx.ev("clone_runner", ri as u64, 0);
             }
             7 => {
@@ -413,7 +423,7 @@ pub fn c13(cx: &mut Ctx) -> VResult {
 }
 
 
-pub const C14M_PROBES: &[&str] = &["multi_idle_conns_woken", "multi_conn_over_64", "multi_conn_mid_request_at_shutdown", "multi_shutdown_ready"];
+pub const C14M_PROBES: &[&str] = &["multi_idle_conns_woken", "multi_conn_over_64", "multi_last_token_dropped_while_unwinding", "multi_conn_mid_request_at_shutdown", "multi_shutdown_ready"];
 
 /// C14 with several live connections: all idle keep-alive connections (peers stay connected) must be
 /// woken by one shutdown request and stop; the shutdown future completes after the last of them.
@@ -459,7 +469,27 @@ pub fn c14_multi(cx: &mut Ctx) -> VResult {
     }
     // run every connection until nothing is enabled any more (strict executor: only woken tasks are polled)
     let order: Vec<usize> = { let mut o: Vec<usize> = (0..conns.len()).collect(); for i in (1..o.len()).rev() { let j = cx.ch.pick(i as u32 + 1) as usize; o.swap(i, j); } o };
-    for &i in &order {
+    // the less-travelled end of a connection: in one case of 6 the last connection does not return but is destroyed by a
+    // panic that unwinds through its task - the future, and the token in it, are dropped while the thread is panicking
+    let unwind_last = cx.ch.chance(1, 6);
+    for (oi, &i) in order.iter().enumerate() {
+        if unwind_last && oi + 1 == order.len() {
+            struct DropInUnwind(Option<Exec>);
+            impl Drop for DropInUnwind { fn drop(&mut self) { drop(self.0.take()); } }
+            let sh = conns[i].shared.clone();
+            let ex = std::mem::replace(&mut conns[i].ex, Exec::new(sh));
+            let g = DropInUnwind(Some(ex));
+            let r = guard(move || { let _g = g; panic!("stand-in for a handler panic that unwinds through Token::run"); });
+            assert!(r.is_err(), "harness: the stand-in panic did not unwind");
+            cx.probe("multi_last_token_dropped_while_unwinding");
+            let w = Waker::from(flag.clone());
+            let mut c = Context::from_waker(&w);
+            let r = sfut.as_mut().poll(&mut c);
+            vcheck!(flag.wakes() > 0, "c14_shutdown_not_woken", "the last connection was destroyed by an unwinding panic, but the shutdown future's waker never fired");
+            vcheck!(r.is_ready(), "c14_shutdown_not_ready", "the last connection was destroyed by an unwinding panic, but the shutdown future is Pending");
+            cx.probe("multi_shutdown_ready");
+            break;
+        }
         let before_handlers = lock(&conns[i].shared).handler_log.len();
         conns[i].ex.budget = None;
         let end = conns[i].ex.run(&mut |_, _| Vec::new());
